@@ -98,7 +98,7 @@ def summarise(data):
             d = bufs[t.Buffer()] if t.Buffer() < len(bufs) else b""
             tensors.append({"idx": ti, "name": (t.Name() or b"").decode("latin1"),
                             "shape": [int(t.Shape(k)) for k in range(t.ShapeLength())], "type": TT_NAME.get(t.Type(), str(t.Type())),
-                            "buffer": int(t.Buffer()), "quant": quant, "data_len": len(d),
+                            "buffer": int(t.Buffer()), "quant": quant, "data_len": len(d), "variable": bool(t.IsVariable()),
                             "data_sha": hashlib.sha256(d).hexdigest()[:16] if d else None})
         ops = []
         for oi in range(sg.OperatorsLength()):
@@ -109,6 +109,7 @@ def summarise(data):
             ops.append({"idx": oi, "opcode": code[0], "custom_code": code[1], "version": code[2],
                         "inputs": [int(op.Inputs(k)) for k in range(op.InputsLength())],
                         "outputs": [int(op.Outputs(k)) for k in range(op.OutputsLength())],
+                        "intermediates": [int(op.Intermediates(k)) for k in range(op.IntermediatesLength())],
                         "options_type": on, "options": od, "custom_options": co.hex()})
         out["subgraphs"].append({"name": (sg.Name() or b"").decode("latin1"),
                                  "inputs": [int(sg.Inputs(k)) for k in range(sg.InputsLength())],
